@@ -309,6 +309,9 @@ def cases(draw, max_events=80):
         c["obs"].append(list(draw(st.sampled_from(extra))))
     c["alpha"] = draw(st.sampled_from([0.05, 0.01, 0.1, 0.5, 0.001, 0.9]))
     c["scale"] = draw(st.booleans())
+    if draw(st.integers(0, 11)) == 0:
+        # more than 1000 target events: the observed (cell, bin) list repeated
+        c["obs"] = c["obs"] * (1100 // len(c["obs"]) + 1)
     if draw(st.integers(0, 2)) == 0:
         c["prescale"] = [draw(st.sampled_from([0.5, 2.0, 4.0])), draw(st.sampled_from([0.25, 1.0, 2.0]))]
     return c
